@@ -235,12 +235,12 @@ class FTPFile(io.RawIOBase):
         return self.mode.reading
 
     def read(self, size=-1):
-        # type: (int) -> bytes
+        # type: (Optional[int]) -> bytes
         if not self.mode.reading:
             raise io.UnsupportedOperation("File not open for reading")
 
         chunks = []
-        remaining = size
+        remaining = -1 if size is None else size
 
         conn = self.read_conn
         with self._lock:
